@@ -1,0 +1,45 @@
+// SPDX-FileCopyrightText: 2026 The Pion community <https://pion.ly>
+// SPDX-License-Identifier: MIT
+
+//go:build verif && verif_c12 && !js
+
+package webrtc
+
+import (
+	"github.com/pion/logging"
+	"github.com/pion/sdp/v3"
+)
+
+// VerifRepairEnabled reports whether the MediaEngine currently enables RTX and
+// FEC for senders of the given kind (what configureRTXAndFEC consults).
+func (pc *PeerConnection) VerifRepairEnabled(kind RTPCodecType) (rtx, fec bool) {
+	dirs := []RTPTransceiverDirection{RTPTransceiverDirectionSendonly}
+
+	return pc.api.mediaEngine.isRTXEnabled(kind, dirs), pc.api.mediaEngine.isFECEnabled(kind, dirs)
+}
+
+// VerifTrackDetail mirrors trackDetails for the verification harness.
+type VerifTrackDetail struct {
+	Mid      string
+	Kind     RTPCodecType
+	StreamID string
+	ID       string
+	SSRCs    []SSRC
+	RTX      *SSRC
+	FEC      *SSRC
+	RIDs     []string
+}
+
+// VerifTrackDetailsFromSDP exposes trackDetailsFromSDP (properties C12, C23).
+func VerifTrackDetailsFromSDP(s *sdp.SessionDescription) []VerifTrackDetail {
+	in := trackDetailsFromSDP(logging.NewDefaultLoggerFactory().NewLogger("verif"), s)
+	out := make([]VerifTrackDetail, 0, len(in))
+	for _, t := range in {
+		out = append(out, VerifTrackDetail{
+			Mid: t.mid, Kind: t.kind, StreamID: t.streamID, ID: t.id,
+			SSRCs: t.ssrcs, RTX: t.rtxSsrc, FEC: t.fecSsrc, RIDs: t.rids,
+		})
+	}
+
+	return out
+}
